@@ -428,6 +428,53 @@ theorem add_sub_unit_invariance_density (s1 s2 : USpec) (f1 f2 : FUnit) (h1 : s1
   ⟨unit_invariance_density _ (fun k a b => (add_div a b k).symm) s1 s2 f1 f2 h1 h2 u m fill hdw,
    unit_invariance_density _ (fun k a b => (sub_div a b k).symm) s1 s2 f1 f2 h1 h2 u m fill hdw⟩
 
+/-- which grid points belong to an operand: the model's range test (with the guard band `tol`) is the test regenerated from
+`_intersect` (`Gen.intersectKeeps`: `(superset >= subset.min() - tol) & (superset <= subset.max() + tol)`), and the value there
+is the interpolant at the grid point clipped into the operand's range (`np.clip(commonwave[index], min, max)`, checked
+structurally by the generator), the fill value everywhere else — for every operand, range, tolerance and grid point -/
+theorem operand_membership_is_code (s : Spectrum) (lo hi tol fill g : ℚ) :
+    operandAt s lo hi tol fill g =
+      if Gen.intersectKeeps lo hi tol g then interpAt s.wave s.value fill fill (clip lo hi g) else fill := rfl
+
+/-- the regenerated `_intersect` test keeps exactly the closed range widened by the guard band on both sides -/
+theorem intersect_keeps_iff (lo hi tol w : ℚ) :
+    Gen.intersectKeeps lo hi tol w = true ↔ lo - tol ≤ w ∧ w ≤ hi + tol := by
+  simp [Gen.intersectKeeps]
+
+/-- … so both end points of an operand's own range are always kept (tol ≥ 0) and, with no guard band, nothing outside is -/
+theorem intersect_keeps_ends (lo hi tol : ℚ) (h : lo ≤ hi) (ht : 0 ≤ tol) :
+    Gen.intersectKeeps lo hi tol lo = true ∧ Gen.intersectKeeps lo hi tol hi = true ∧
+    ∀ w, Gen.intersectKeeps lo hi 0 w = true → lo ≤ w ∧ w ≤ hi := by
+  refine ⟨?_, ?_, ?_⟩
+  · rw [intersect_keeps_iff]; constructor <;> linarith
+  · rw [intersect_keeps_iff]; constructor <;> linarith
+  · intro w hw; rw [intersect_keeps_iff] at hw; constructor <;> linarith [hw.1, hw.2]
+
+/-- the five operators of the property are wired as the source spells them: `a + b`, `a - b`, `a * b`, `a / b`, `a ** b` end —
+through `Spectrum.add/subtract/multiply/divide/power`, whose bodies hand `other, sampling, method, fill_value` on unchanged
+(checked by the generator) — in the NumPy ufunc of that arithmetic (`Gen.operatorOp`, `Gen.methodOp`, regenerated from
+`__add__ … __pow__` and the five methods), the operator form and the method form of each agree, and the only reflected
+operator is `__rmul__`, an alias of `__mul__` -/
+theorem operators_dispatch :
+    (Gen.operatorOp "__add__").bind arithFn = some (· + ·) ∧ (Gen.operatorOp "__sub__").bind arithFn = some (· - ·) ∧
+    (Gen.operatorOp "__mul__").bind arithFn = some (· * ·) ∧ (Gen.operatorOp "__truediv__").bind arithFn = some (· / ·) ∧
+    Gen.operatorOp "__pow__" = some .power ∧
+    (∀ d ∈ ["__add__", "__sub__", "__mul__", "__truediv__", "__pow__"],
+        (Gen.operatorMethod d).bind Gen.methodOp = Gen.operatorOp d ∧ (Gen.operatorOp d).isSome) ∧
+    Gen.reflectedAliases = [("__rmul__", "__mul__")] := by
+  refine ⟨rfl, rfl, rfl, rfl, rfl, by decide, rfl⟩
+
+/-- "addition and multiplication are commutative", from the operator symbol down: whatever arithmetic the source wires `+` and
+`*` (and the reflected `*`, an alias) to, `b ∘ a = a ∘ b` on every pair of spectra, with left/right sampling swapped -/
+theorem add_mul_operators_commute (d : String) (hd : d = "__add__" ∨ d = "__mul__") (f : ℚ → ℚ → ℚ)
+    (hf : (Gen.operatorOp d).bind arithFn = some f) (s1 s2 : Spectrum) (m : Sampling) (fill : ℚ) :
+    ufunc f s2 s1 m.swap fill = ufunc f s1 s2 m fill := by
+  rcases hd with rfl | rfl
+  · have : f = (· + ·) := (Option.some.inj hf).symm
+    subst this; exact op_comm _ (fun a b => _root_.add_comm a b) s1 s2 m fill
+  · have : f = (· * ·) := (Option.some.inj hf).symm
+    subst this; exact op_comm _ (fun a b => _root_.mul_comm a b) s1 s2 m fill
+
 /-- non-vacuity: nested ranges, fill 0 -/
 example : ufunc (· + ·) ⟨[1, 2, 3], [10, 20, 30]⟩ ⟨[2, 3, 4, 5], [1, 1, 1, 1]⟩ .min 0
     = .ok ⟨[1, 2, 3, 4, 5], [10, 21, 31, 1, 1]⟩ := by decide +kernel
